@@ -19,7 +19,7 @@ func init() {
 	Register(&Monitor{
 		ID:    "C02",
 		Level: "exploration",
-		Rule: "exhaustive matrix: step-axis::test[pred-axis::test] and its not() form for all 12x12 axis pairs, optionally below //, from every node of every tree shape with <= 4 elements; " +
+		Rule: "exhaustive matrix: step-axis::test[pred-axis::test] and its not() form for all 12x12 axis pairs, optionally below //, from every node of every tree shape with <= 4 elements; exhaustive matrix2: //*[ax1::t1/ax2::t2] and *[...] for all 144 axis pairs of a TWO-step predicate path over every tree shape with <= 5 elements (an earlier candidate leaves the predicate's iterators half consumed for the next one); " +
 			"plus seeded random paths of 1-3 steps whose steps or whose parenthesised whole carry 1-2 boolean predicates of nesting depth <= 2 (existence on any axis, =/!= and relational tests against literals drawn from the values actually present, not(), and/or with cursor-moving left and context-sensitive right operands, count()/contains()/starts-with()/local-name(), predicates nested in the predicate's own path) on random and wide documents where many candidates share ancestors and siblings. " +
 			"Non-trivial: the reference denotation is non-empty AND at least one candidate was rejected by a predicate; distinct by (expression text, document, context).",
 		Assume: []string{"reference evaluator internal/xref (XPath 1.0 predicates, conversions, existential comparisons)",
@@ -29,6 +29,7 @@ func init() {
 		Families: []Family{
 			witnessFamily("C02"),
 			{Name: "matrix", N: func(string) int { return len(c02Matrix()) }, Run: c02MatrixRun},
+			{Name: "matrix2", N: func(string) int { return len(c02Matrix2()) }, Run: c02Matrix2Run},
 			{Name: "rand", N: tierN(40000, 600000), Run: c02Random},
 		},
 	})
@@ -198,5 +199,56 @@ func c02Random(c *Case) {
 	}
 	c.SampleEvery(4001, func() interface{} {
 		return map[string]interface{}{"family": "rand", "expr": src, "ctx": ctx.Label(), "doc": d.XML(), "selected": xdoc.Labels(want)}
+	})
+}
+
+var c02m2 []xref.Expr
+
+// c02Matrix2: two-step predicate paths over all axis pairs; the outer step makes many candidates reach the same predicate.
+func c02Matrix2() []xref.Expr {
+	if c02m2 != nil {
+		return c02m2
+	}
+	tests := func(ax string) []xref.Test {
+		if ax == "attribute" {
+			return []xref.Test{{Kind: "*"}}
+		}
+		return []xref.Test{{Kind: "name", Local: "a"}, {Kind: "name", Local: "b"}, {Kind: "*"}}
+	}
+	for _, a1 := range xref.AxisNames {
+		for _, a2 := range xref.AxisNames {
+			for _, t1 := range tests(a1) {
+				for _, t2 := range tests(a2) {
+					pred := xref.Path{Steps: []*xref.Step{{Axis: a1, Test: t1}, {Axis: a2, Test: t2}}}
+					c02m2 = append(c02m2, xref.Path{Abs: true, Steps: []*xref.Step{xgen.DSlash(), {Axis: "child", Abbrev: "child", Test: xref.Test{Kind: "*"}, Preds: []xref.Expr{pred}}}})
+				}
+			}
+		}
+	}
+	return c02m2
+}
+
+func c02Matrix2Run(c *Case) {
+	p := c02Matrix2()[c.Index]
+	src := xref.Render(p)
+	ce := c.compile(src, func() map[string]interface{} { return map[string]interface{}{} })
+	if ce == nil {
+		return
+	}
+	c.recordShape(queryShape(ce))
+	for di, d := range shapeDocs(5) {
+		want, ok, why := refNodeSet(p, xref.NewCtx(d.Root))
+		if !ok {
+			panic("C02 matrix2: reference: " + why)
+		}
+		if _, good := c.checkSelectSet(ce, src, d.Root, want); !good {
+			return
+		}
+		if len(want) > 0 {
+			c.Nontrivial(fmt.Sprintf("%s|%d", src, di))
+		}
+	}
+	c.SampleEvery(101, func() interface{} {
+		return map[string]interface{}{"family": "matrix2", "path": src, "documents": len(shapeDocs(5))}
 	})
 }
